@@ -104,6 +104,8 @@ enum Ctl {
 	Gate(u64),
 	SetHook(u32),
 	SetErrH(Option<u32>),
+	/// unset_spawn_hook: nothing observable by itself (always followed by a SetHook before any spawn)
+	UnsetHook,
 }
 
 #[derive(Clone, Debug)]
@@ -521,6 +523,10 @@ impl M {
 				self.errh = h;
 				self.complete(m.ticket);
 			}
+			Ctl::UnsetHook => {
+				self.last_op = "unset_spawn_hook";
+				self.complete(m.ticket);
+			}
 		}
 		true
 	}
@@ -611,6 +617,7 @@ impl M {
 			Op::RunAsync { hold_ms } => one(Ctl::AsyncHold(*hold_ms)),
 			Op::Gate => one(Ctl::Gate(self.gate_epoch)),
 			Op::SetHook(h) => one(Ctl::SetHook(*h)),
+			Op::UnsetHook => one(Ctl::UnsetHook),
 			Op::SetErrH(h) => one(Ctl::SetErrH(Some(*h))),
 			Op::UnsetErrH => one(Ctl::SetErrH(None)),
 		};
